@@ -233,6 +233,9 @@ func c12Cases(thorough bool) (out []c12Case) {
 			res = append(res, r)
 		}
 	})
+	// shapes that regexp (or an optimisation in front of it) may treat specially: literals anchored at one or both
+	// ends, flags, alternation under anchors, word boundaries, repetition, classes
+	res = append(res, "^a$", "^a b$", `\Aa\z`, "^ab", "ab$", "^$", "(?i)A", "(?i)^A$", "(?m)^a$", "(?s)a.b", "^a|b$", `\ba\b`, "a{2}", "[ab]", "a+", "a?b", "^a:;,%=é$", "^(a)$", "(?:^a$)", `^\|$`, `\.`, "a*")
 	small := [][3]int{{0, 0, 0}, {1, 0, 0}, {0, 7, 1}, {-1, -1, -1}}
 	for _, r := range res {
 		for _, inv := range []bool{false, true} {
